@@ -72,6 +72,9 @@ TGet ==
           /\ UNCHANGED <<exists, idxTab, mode, next, pending, indexable, stale>>
      ELSE /\ Ev.i >= 0 /\ Get(Ev.i) /\ last'.ok = Ev.ok
           /\ (Ev.ok = "yes" => last'.val = Item(Ev.p, Ev.id))
+\* "fully identified or not at all" over the items whose contents are known (the items of a pre-existing file are
+\* placeholders until they are read for the first time)
+KnownAllOrNone == \A a, b \in Range(added) : (a.p # Unknown /\ b.p # Unknown) => ((a.id = NoId) <=> (b.id = NoId))
 TLen == Ev.op = "len" /\ LenOp /\ last'.val = Ev.n
 TClose == Ev.op = "close" /\ Close
 TSync == Ev.op = "sync" /\ Sync /\ last'.ok = Ev.ok
